@@ -82,6 +82,23 @@ Fixpoint lookup (s : scope) (x : N) : result Q :=
 
 Definition evals (s : scope) (e : expr) : result Q := eval (lookup s) e.
 
+(* evaluate_numeric called with the unpacked scope (ArithmeticPT scalar operand) reads the WHOLE scope: every key is looked up,
+   so every visible mapped parameter is evaluated even if the expression does not use it *)
+Fixpoint scope_keys (s : scope) : list N :=
+  match s with
+  | SDict l => map fst l
+  | SMapped inner m => map fst m ++ scope_keys inner
+  | SRange inner x _ => x :: scope_keys inner
+  end.
+Fixpoint scope_force (s : scope) : result unit :=
+  match s with
+  | SDict _ => Ok tt
+  | SMapped inner m =>
+      (fix go (l : list N) : result unit :=
+         match l with [] => Ok tt | x :: r => _ <- lookup s x ;; go r end) (map fst m ++ scope_keys inner)
+  | SRange inner _ _ => scope_force inner
+  end.
+
 (* checked_int_cast (the 1e-6 tolerance is outside the generated dyadic domain) *)
 Definition to_int (k : err) (q : Q) : result Z :=
   let r := Qred q in if Pos.eqb (Qden r) 1 then Ok (Qnum r) else Err k.
@@ -721,6 +738,10 @@ Fixpoint cp (p : pt) (s : scope) (cm : chanmap) (gt : option trafo) : result (li
       (* NOTE (as in the code): the global transformation is chained BEFORE the node's own overwrite *)
       cp body s cm (Some (match gt with Some g => g ++ [TOver vals] | None => [TOver vals] end))
   | PArith lhs op scalar body =>
+      _ <- (if match scalar with
+                  | inl _ => true
+                  | inr l => existsb (fun ce => match cm (fst ce) with Some _ => true | None => false end) l
+                  end then scope_force s else Ok tt) ;;
       tr <- arith_trafo (lookup s) cm lhs op scalar (pt_chans body) ;;
       cp body s cm (Some (chain tr gt))
   end.
